@@ -250,8 +250,11 @@ class Worker(multiprocessing.Process):
 
 
     def remove_pending_answer(self, p_answer):
-        p_answer.notify()
+        #: The entry leaves the registry before its caller is woken up: a 
+        #: caller which sends the same request again right away registers a 
+        #: new entry under the same Hop-by-Hop, and that one has to stay.
         self.pending_answers.pop(p_answer.msg.header.hop_by_hop, None)
+        p_answer.notify()
 
 
     def is_send_queue_empty(self):
